@@ -1288,6 +1288,19 @@ fn c18(tier: &str, thorough: bool) -> i32 {
         let sizes: Vec<usize> = if thorough { vec![0, 1, 64, 65, 511, 513, 4095, 4096, 4097, 9000] } else { vec![0, 65, 4096, 5000] };
         hists.extend(c18_histories(v, if thorough { 3 } else { 2 }, &sizes));
     }
+    // writes followed by reads through the SAME handle (no flush or seek in between), with read sizes on
+    // both sides of the buffer sizes tried below
+    for v in [3u16, 4] {
+        for ops in [
+            vec![Op::Rewrite("/s".into(), 10_000), Op::PatchRead("/s".into(), 1000, 500, 3000)],
+            vec![Op::Rewrite("/s".into(), 3000), Op::PatchRead("/s".into(), 100, 50, 2000), Op::PatchRead("/s".into(), 2990, 40, 10)],
+            vec![Op::Rewrite("/s".into(), 10_000), Op::PatchRead("/s".into(), 0, 1200, 1024), Op::PatchRead("/s".into(), 5000, 10, 5000)],
+            vec![Op::Rewrite("/s".into(), 4000), Op::PatchRead("/s".into(), 3990, 200, 1), Op::PatchRead("/s".into(), 10, 10, 4096)],
+        ] {
+            let n = ops.len();
+            hists.push(History { version: v, seed: "d1".into(), ops, reopen_after: vec![false; n] });
+        }
+    }
     for (v, seed) in growth_seeds(false) {
         if seed.starts_with("b7") || seed.starts_with("b15") {
             continue; // multi-megabyte files: the per-index sweeps would take hours
